@@ -138,13 +138,13 @@ func TestVerifC07Seq(t *testing.T) {
 	rep.SetRule("seeded programs of 3..16 calls on a fresh partition with 3..5 phantom replicas: ReportLeader from in-sync followers / the leader / out-of-sync replicas / an unknown id, ShrinkISR of a follower / the leader / a non-member, ExpandISR of an out-of-sync / in-sync replica, each naming the current or a stale (leader, epoch); X = more than the timeout passes (the pending expiry timer is stopped and failover.OnExpired invoked, exactly what the timer does); L = metadataAPI.LostLeadership(). I1-I6 checked after every call and at every committed Raft entry; non-trivial = a leader change or ISR change was committed or a stale request was refused; distinct = (replicas, initial leader, program)")
 	c07Assumptions(rep)
 	root := kit.NewRNG(kit.Mix(kit.Seed(), 0xC07))
-	n := kit.Scale(700, 9000)
+	n := kit.Scale(1500, 20000)
 	cases := make([]c07Case, n)
 	for i := range cases {
 		rng := root.Fork(uint64(i))
 		cases[i] = c07Case{N: rng.Range(3, 5), Leader: rng.Intn(5), Prog: c07GenProg(rng, 16, false), Label: fmt.Sprintf("seq#%d", i)}
 	}
-	c07RunOnControllers(rep, "s", kit.EnvInt("C07_CONTROLLERS", 6), cases, false, func(i int) bool { return i < 3 })
+	c07RunOnControllers(rep, "s", kit.EnvInt("C07_CONTROLLERS", 8), cases, false, func(i int) bool { return i < 3 })
 }
 
 // ---------------------------------------------------------------- enumeration
@@ -172,7 +172,12 @@ func TestVerifC07Enum(t *testing.T) {
 	rep := kit.NewReport("C07", "enum")
 	defer rep.Write()
 	core := []c07Op{{Kind: "R", Who: "f0"}, {Kind: "R", Who: "f1"}, {Kind: "R", Who: "L"}, {Kind: "R", Who: "o0"}, {Kind: "S", Who: "fl"}, {Kind: "E", Who: "o0"}, {Kind: "X"}}
-	extra := []c07Op{{Kind: "R", Who: "U"}, {Kind: "S", Who: "L"}, {Kind: "R", Who: "f0", Pair: "prevPair"}, {Kind: "S", Who: "f0", Pair: "staleEpoch"}, {Kind: "E", Who: "o0", Pair: "staleLeader"}, {Kind: "L"}}
+	extra := []c07Op{{Kind: "S", Who: "L"}, {Kind: "R", Who: "f0", Pair: "prevPair"}, {Kind: "S", Who: "f0", Pair: "staleEpoch"}, {Kind: "L"}}
+	extraNames := "S.L R.f0.prevPair S.f0.staleEpoch L"
+	if kit.Thorough() {
+		extra = append(extra, c07Op{Kind: "R", Who: "U"}, c07Op{Kind: "E", Who: "o0", Pair: "staleLeader"})
+		extraNames += " R.U E.o0.staleLeader"
+	}
 	isExtra := func(o c07Op) bool {
 		for _, x := range extra {
 			if x == o {
@@ -182,7 +187,7 @@ func TestVerifC07Enum(t *testing.T) {
 		return false
 	}
 	coreLen, extLen, core4Len := kit.Scale(4, 5), kit.Scale(3, 4), kit.Scale(3, 4)
-	rep.SetRule(fmt.Sprintf("small-scope enumeration, simulated expiry: ALL programs of length 1..%d over the core alphabet {R.f0 R.f1 R.L R.o0 S.fl E.o0 X} on 3 replicas, length 1..%d on 4 replicas, and ALL programs of length 1..%d over core+{R.U S.L R.f0.prevPair S.f0.staleEpoch E.o0.staleLeader L} that use at least one of the added symbols (3 replicas); a program is pruned at the first symbol whose role does not exist in the state reached (it equals a shorter program); same per-call / per-entry oracle as the seeded programs; non-trivial = a leader or ISR change was committed or a stale request refused", coreLen, core4Len, extLen))
+	rep.SetRule(fmt.Sprintf("small-scope enumeration, simulated expiry: ALL programs of length 1..%d over the core alphabet {R.f0 R.f1 R.L R.o0 S.fl E.o0 X} on 3 replicas, length 1..%d on 4 replicas, and ALL programs of length 1..%d over core+{%s} that use at least one of the added symbols (3 replicas); a program is pruned at the first symbol whose role does not exist in the state reached (it equals a shorter program); same per-call / per-entry oracle as the seeded programs; non-trivial = a leader or ISR change was committed or a stale request refused", coreLen, core4Len, extLen, extraNames))
 	c07Assumptions(rep)
 	rep.SetExhaustive(true)
 	var cases []c07Case
@@ -206,7 +211,7 @@ func TestVerifC07Enum(t *testing.T) {
 		cases[i].Label = fmt.Sprintf("enum#%d", i)
 	}
 	rep.SetInfo("programs_enumerated", len(cases))
-	c07RunOnControllers(rep, "e", kit.EnvInt("C07_CONTROLLERS", 8), cases, true, func(i int) bool { return i%1999 == 57 })
+	c07RunOnControllers(rep, "e", kit.EnvInt("C07_CONTROLLERS", 12), cases, true, func(i int) bool { return i%1999 == 57 })
 }
 
 // ---------------------------------------------------------------- real timer
